@@ -345,6 +345,11 @@ func (r *RouterBackend) parseQueryRoutesRequest(in *lnrpc.QueryRoutesRequest) (
 		// default, so we'll fill that in for the non-blinded case.
 		finalCLTVDelta uint16
 
+		// blindedFinalDelta is the final cltv delta that the blinded
+		// path set itself imposes on the route. It is only non-zero
+		// for an introduction node only path.
+		blindedFinalDelta uint16
+
 		// destinationFeatures is the set of features for the
 		// destination node.
 		destinationFeatures *lnwire.FeatureVector
@@ -361,6 +366,18 @@ func (r *RouterBackend) parseQueryRoutesRequest(in *lnrpc.QueryRoutesRequest) (
 		pathFeatures := blindedPathSet.Features()
 		if pathFeatures != nil {
 			destinationFeatures = pathFeatures.Clone()
+		}
+
+		// A path that consists of an introduction node only has no
+		// hop hint that accounts for its cltv delta, the route uses
+		// it as its final delta instead. It is therefore part of the
+		// total time lock that the cltv limit applies to.
+		blindedFinalDelta = blindedPathSet.FinalCLTVDelta()
+		err = routing.ValidateCLTVLimit(
+			cltvLimit, blindedFinalDelta, false,
+		)
+		if err != nil {
+			return nil, err
 		}
 	} else {
 		// If we do not have a blinded path, a target pubkey must be
@@ -408,7 +425,7 @@ func (r *RouterBackend) parseQueryRoutesRequest(in *lnrpc.QueryRoutesRequest) (
 	// We need to subtract the final delta before passing it into path
 	// finding. The optimal path is independent of the final cltv delta and
 	// the path finding algorithm is unaware of this value.
-	cltvLimit -= uint32(finalCLTVDelta)
+	cltvLimit -= uint32(finalCLTVDelta) + uint32(blindedFinalDelta)
 
 	ignoredNodes, ignoredPairs, err := r.parseIgnored(in)
 	if err != nil {
